@@ -205,7 +205,7 @@ class HttpScenario(Scenario):
         Scenario.run(self)
         import wire
         for ln in self.s.log[mark:]:
-            if ln.startswith("E madd"):
+            if ln.startswith("E madd "):
                 f = dict(x.split("=", 1) for x in ln.split()[2:])
                 rid = int.from_bytes(wire.request_fields(bytes.fromhex(f["post"]))["payload"].get(1, b""), "big")
                 owner = [r for r in self.req if self.req[r]["id"] == rid]
@@ -231,6 +231,10 @@ class HttpScenario(Scenario):
         self.s.cmd("MHTTP %d %d %s %d" % (x, rng.choice([200, 200, 201, 302]), raw.hex() or "-", rng.choice([0, 0, 1, 7, 100])))
         self.events.append(dict(e="HDone", x=r, res="body", msgs=[p[1] for p in parts], junk=junk))
 
+    def drain(self):
+        self.s.cmd("MADDFAIL 0")
+        Scenario.drain(self)
+
     def server(self):
         if not self.live:
             return False
@@ -238,8 +242,12 @@ class HttpScenario(Scenario):
         return True
 
     def step(self):
-        a = self.rng.choices(["add", "run", "srv", "tick"], weights=[5, 8, 6, 2])[0]
-        if a == "add":
+        a = self.rng.choices(["add", "run", "srv", "tick", "open"], weights=[5, 8, 6, 2, 0.6])[0]
+        if a == "open":
+            # the transfer library refuses (or again accepts) new exchanges: curl_multi_add_handle fails
+            v = self.rng.choice(["ok", "fail", "fail"])
+            self.s.cmd("MADDFAIL %d" % (v == "fail")); self.events.append(dict(e="Open", v=v))
+        elif a == "add":
             if self.next_r <= R:
                 self.add()
         elif a == "run":
